@@ -130,6 +130,10 @@ func (tx *Tx) Rollback() error {
 		}
 	}
 
+	// an XA branch has no local transaction underneath
+	if tx.target == nil {
+		return nil
+	}
 	return tx.target.Rollback()
 }
 
